@@ -79,6 +79,7 @@ CHECKS = {
     "C20": {"crate": "h_misc", "bin": "c20", "level": "exploration", "legs": [
         native(),
         asan(tiers=["thorough"], args={"all": {"part": "garbage"}}),
+        script("miri", "legs_miri", "c20_miri", tiers=["thorough"]),
     ]},
     "C17": {"crate": "h_chain", "bin": "c17", "level": "exploration", "legs": [native()]},
 }
